@@ -190,6 +190,9 @@ Proof.
   - apply keys_ok_default.
 Qed.
 
+Theorem table_keys v ops : keys_ok (apply_ops v (default_table v) ops).
+Proof. apply keys_ok_ops. apply keys_ok_default. Qed.
+
 (* ---- CTCP.call with any table -------------------------------------------- *)
 
 (* what the library itself writes when no handler is registered for the command *)
@@ -342,3 +345,16 @@ Example wildcard_then_errmsg :
   = Ok [notice (bs "log") (bs "FOO");
         notice (bs "nick") ([1] ++ bs "ERRMSG that is an unknown CTCP query" ++ [1])].
 Proof. vm_compute. reflexivity. Qed.
+
+(* ---- echo-message ---------------------------------------------------------- *)
+
+(* RunHandlers skips the command's ordinary handlers for an echo (a PRIVMSG/NOTICE whose
+   source is the client itself) but not the CTCP stage, which does not read Event.Echo: a
+   request the client sent and the server echoes back (echo-message), or a CTCP query to
+   itself, is answered - to itself -, and that answer, being a NOTICE, ends the exchange. *)
+Example echo_is_answered_once :
+  let v := ex_env true in
+  ctcp_stage (default_table v) (mk_event (Some (bs "me")) PRIVMSG [bs "bob"; [1] ++ bs "PING 42" ++ [1]])
+    = Ok [notice (bs "me") ([1] ++ bs "PING 42" ++ [1])] /\
+  ctcp_stage (default_table v) (mk_event (Some (bs "me")) NOTICE [bs "me"; [1] ++ bs "PING 42" ++ [1]]) = Ok [].
+Proof. vm_compute. split; reflexivity. Qed.
